@@ -55,6 +55,10 @@ pub enum Fault {
     /// --start above the tip (by 1 + beyond): nothing to process. Whatever the tool makes of it, exit status 0 must
     /// still mean one final-named file per output and no *.tmp, and a failure must leave no final-named file
     EmptyRange { beyond: u8 },
+    /// the k-th rename of a temporary file to its final name fails (EIO injected): not one of the failures the
+    /// statement's second sentence lists, so only its first sentence is demanded - exit status 0 still has to mean
+    /// complete final-named output and no *.tmp
+    RenameFail { k: u32 },
 }
 
 #[derive(Clone, Debug, Serialize, Deserialize)]
@@ -236,6 +240,7 @@ pub fn check(c: &Case) -> Verdict {
             };
             of.inject = Some(Inject { syscall: "write".into(), action: format!("error={}", ["ENOSPC", "EIO", "EPIPE", "EDQUOT", "EROFS", "EBADF"][*errno as usize % 6]), when: *k as u64, paths, when_expr: None })
         }
+        Fault::RenameFail { k } => of.inject = Some(Inject { syscall: "rename".into(), action: "error=EIO".into(), when: *k as u64, paths: tmp_paths(c.cb, &dump), when_expr: None }),
         Fault::Kill { syscall, k } => of.inject = Some(Inject { syscall: syscall.clone(), action: "signal=KILL".into(), when: *k as u64, paths: tmp_paths(c.cb, &dump), when_expr: None }),
         Fault::EmptyRange { beyond } => {
             of.start = Some(built.tip() + 1 + *beyond as u64);
@@ -378,6 +383,10 @@ pub fn check(c: &Case) -> Verdict {
             }
         }
         Fault::EmptyRange { .. } => unreachable!("handled above"),
+        Fault::RenameFail { .. } => {
+            // rule (a) above is the whole demand
+            fired = injected;
+        }
         Fault::Startup { kind } => {
             if out.ok() {
                 return Verdict::Fail(format!("start-up failure kind {} (no output can have been produced), yet the run exited 0: {}", kind, out.describe()));
@@ -409,6 +418,7 @@ pub fn check(c: &Case) -> Verdict {
         Fault::Kill { syscall, .. } => format!("kill@{}", syscall),
         Fault::Startup { kind } => format!("startup-{}", kind),
         Fault::EmptyRange { .. } => "empty-range".into(),
+        Fault::RenameFail { .. } => "rename-fails".into(),
     };
     let mut classes = vec![format!("cb={}", c.cb.cli()), format!("fault={}", kind), format!("fired={}", fired)];
     if max_size > 4_000_000 {
@@ -492,6 +502,9 @@ fn enumerated(seed: u64, tier: Tier) -> Vec<Case> {
             for k in 1..=2 {
                 v.push(mk(Fault::Enospc { k, file: Some(f), errno: ((k + f as u32) % 6) as u8 }));
             }
+        }
+        for k in 1..=cb.stems().len() as u32 {
+            v.push(mk(Fault::RenameFail { k }));
         }
         for sc in ["openat", "write", "rename", "close"] {
             for k in 1..=6 {
